@@ -242,13 +242,9 @@ func phiPairFromSameEntry(fn *ssa.Function) bool {
 				if fa, ok := u.X.(*ssa.FieldAddr); ok {
 					switch fieldName(fa.X.Type(), fa.Field) {
 					case "m":
-						if ph.Comment == "m" {
-							mSrc = fa.X
-						}
+						mSrc = fa.X
 					case "p":
-						if ph.Comment == "p" {
-							pSrc = fa.X
-						}
+						pSrc = fa.X
 					}
 				}
 			}
